@@ -12,7 +12,8 @@ Driver for `Model/Fair.lean`.  One request per line:
   handoff I <n> (<len> <key>*)* T <tree>
       -> targets=<worker>,..          (empty list: the task is queued)
   apply U <n> (enq <n> <key>* <id> <prio> <dur> <ts> | deq <n> <key>* <queueIndex> | inc <n> <key>* <now> |
-             dec <n> <key>* <now> | park <n> <key>* <worker> | unpark <n> <key>* <listIndex>)* T <tree>
+             dec <n> <key>* <now> | park <n> <key>* <worker> | unpark <n> <key>* <listIndex> |
+             mk <n> <key>* <newKey> <now> | rm <n> <key>* <childKey>)* T <tree>
       -> p=<path>;prio=..;ops=<ids>;q=<keys>;pk=<keys>;pw=<workers>;e=..;s=..;c=..  per invocation
          (Model/FairDyn.lean: the code's update functions with container/heap at their call sites)
   scorelt <e1> <p1> <e2> <p2> <tie>   -> <0|1>   (isPreferred with the exact score order)
@@ -121,6 +122,8 @@ def update : P Update := do
   | "dec" => do let path ← counted nat; let now ← nat; pure (.decrement path now fun _ => true)
   | "park" => do let path ← counted nat; let w ← nat; pure (.park path w)
   | "unpark" => do let path ← counted nat; let idx ← nat; pure (.unpark path idx)
+  | "mk" => do let path ← counted nat; let k ← nat; let now ← nat; pure (.create path k now)
+  | "rm" => do let path ← counted nat; let k ← nat; pure (.removeIfEmpty path k)
   | _ => failure
 
 /-- `apply U <n> <update>* T <tree>` -> the tree after the updates, one entry per invocation. -/
